@@ -48,6 +48,51 @@ impl Out {
         }
         self.n += 1;
     }
+    /// a `script` case with a metamorphic oracle on the implementation alone: the script written back
+    /// by `Display` (what --format / --override keep of the untouched records) runs the same way —
+    /// same calls, same waits, same verdict (line numbers may move)
+    fn script_fmt(&mut self, c: &ScriptCase, pid: &str) {
+        writeln!(self.cases, "{}", c.encode()).unwrap();
+        let a = c.run();
+        writeln!(self.imp, "{}", a).unwrap();
+        writeln!(self.tags, "{}", c.tag.replace('\n', " ")).unwrap();
+        let own = script::LAST_ORACLE.with(|o| o.borrow_mut().take());
+        let strip = |x: &str| -> String {
+            let t: Vec<&str> = x.split(' ').collect();
+            if t[0] == "failed" && t.len() > 2 {
+                format!("failed {}", t[2..].join(" "))
+            } else {
+                x.to_string()
+            }
+        };
+        let mut verdict = own;
+        if verdict.is_none() {
+            if let Ok(recs) = sqllogictest::parse_with_name::<sqllogictest::DefaultColumnType>(&c.text, "t.slt") {
+                let mut text2 = String::new();
+                for r in &recs {
+                    text2.push_str(&format!("{}\n", r));
+                }
+                let mut c2 = c.clone();
+                c2.text = text2.clone();
+                let b = c2.run();
+                let _ = script::LAST_ORACLE.with(|o| o.borrow_mut().take());
+                if strip(&a) != strip(&b) {
+                    verdict = Some(format!(
+                        "{}|the script as written back by Display runs differently: {} instead of {} (formatted text: {:?})",
+                        pid,
+                        &strip(&b).chars().take(300).collect::<String>(),
+                        &strip(&a).chars().take(300).collect::<String>(),
+                        text2.chars().take(300).collect::<String>()
+                    ));
+                }
+            }
+        }
+        match verdict {
+            None => writeln!(self.expect, "-").unwrap(),
+            Some(m) => writeln!(self.expect, "!{}", m.replace('\n', " ")).unwrap(),
+        }
+        self.n += 1;
+    }
     /// a `fmt` case; the harness's own metamorphic oracle verdict goes to expect.txt as `!msg`
     fn fmt(&mut self, text: &str, tag: &str) {
         writeln!(self.cases, "{}", fmtop::encode_fmt_case(text)).unwrap();
@@ -146,6 +191,12 @@ fn gen_profile(profile: &str, seed: u64, n: usize, thorough: bool, out: &mut Out
                     for kind in 0..6 {
                         for b in ["0s", "1ms", "1s500ms"] {
                             out.script(&gen::gen_c09(nn, bits, kind, b, &mut r));
+                        }
+                        if nn <= 3 {
+                            // back-offs that are not a whole number of the next larger unit
+                            for b in ["250us", "1ms500us", "1ms1ns", "1m1ms", "999ns", "1h1s"] {
+                                out.script_fmt(&gen::gen_c09(nn, bits, kind, b, &mut r), "C09");
+                            }
                         }
                     }
                 }
@@ -256,7 +307,25 @@ fn gen_profile(profile: &str, seed: u64, n: usize, thorough: bool, out: &mut Out
                 let mask = r.below(16) as u32;
                 let ls: Vec<&str> =
                     (0..4).filter(|i| mask & (1 << i) != 0).map(|i| labels[i]).collect();
-                out.script(&gen::gen_c11(&gl, &ls, r.below(3), *r.pick(&["mock", ""]), true));
+                let engine = *r.pick(&["mock", ""]);
+                let gap = *r.pick(&["", "", "\n", "# c\n", "\n# c\n\n"]);
+                let mut c = gen::gen_c11_gap(&gl, &ls, r.below(3), engine, true, gap);
+                if r.chance(1, 2) {
+                    // labels added later count from then on: a second script on the same runner
+                    let mask2 = r.below(16) as u32 & !mask;
+                    let l2: Vec<&str> = (0..4).filter(|i| mask2 & (1 << i) != 0).map(|i| labels[i]).collect();
+                    let gl2: Vec<(bool, &str)> = (0..r.range(1, 2)).map(|_| *r.pick(&guard_choices)).collect();
+                    let mut t2 = String::new();
+                    for (only, l) in &gl2 {
+                        t2.push_str(&format!("{} {}\n", if *only { "onlyif" } else { "skipif" }, l));
+                    }
+                    t2.push_str("statement ok\nguarded2\n\n");
+                    c.db.rules.push(("guarded2".into(), vec![mock::Ans::Error("nope".into())]));
+                    c.text2 = Some(t2);
+                    c.labels2 = l2.iter().map(|s| s.to_string()).collect();
+                    c.tag.push_str(&format!(" second guards2={:?} labels2={:?}", gl2, l2));
+                }
+                out.script(&c);
             }
         }
         "c12" => {
@@ -537,6 +606,14 @@ fn decode_script(t: &[&str]) -> ScriptCase {
         c.env.push((k, v));
     }
     c.text = unhx(next());
+    c.text2 = match next() {
+        "-" => None,
+        x => Some(unhx(x)),
+    };
+    let n: usize = next().parse().unwrap();
+    for _ in 0..n {
+        c.labels2.push(unhx(next()));
+    }
     let n: usize = next().parse().unwrap();
     for _ in 0..n {
         next();
@@ -580,6 +657,10 @@ fn decode_script(t: &[&str]) -> ScriptCase {
                 CmdAns::Exit { code, stdout: unhx(next()) }
             }
             "spawnerr" => CmdAns::SpawnErr,
+            "signal" => {
+                let sig = next().parse().unwrap();
+                CmdAns::Signal { sig, stdout: unhx(next()) }
+            }
             x => panic!("bad cmdans {x}"),
         }
     }
